@@ -698,6 +698,19 @@ theorem unanswered_target_never_completes (v : Variant) (r : Resp) (hr : isFailu
   | error => cases hr
   | bad => cases hr
 
+/-! (f) AN ERROR RESPONSE THAT ARRIVES BEFORE THE PLAN STAGE COMPLETES IS ERASED. The search
+pipeline's completion callback calls `Complete(nil)` after the last request is sent;
+`baseTaskContext.Complete` overwrites `ctx.err`. A node that fails fast (its error response is
+handled while the root is still sending) is forgotten: the query "succeeds" with the data of the
+others. The same response handled after the callback fails the query. -/
+theorem error_before_plan_completion_is_erased (v : Variant) (p : Payload) :
+    (((Ctx.new 2).handleAll v [.error, .ok p]).complete none).err = none ∧
+    (((Ctx.new 2).handle v .error).complete none |>.handle v (.ok p)).err = none ∧
+    ((((Ctx.new 2).complete none).handleAll v [.error, .ok p]).err = some .other) := by
+  refine ⟨rfl, ?_, ?_⟩
+  · simp only [Ctx.handle, Ctx.absorb, Ctx.complete, Ctx.new]; split <;> rfl
+  · simp only [Ctx.handleAll, List.foldl, Ctx.handle, Ctx.absorb, Ctx.complete, Ctx.new]; split <;> rfl
+
 /-- the full-strength statement is false of the code as it is (witness (a); (b), (c), (d) refute
 it just as well) -/
 theorem full_statement_false : ¬ FullStatement .code := by
